@@ -51,18 +51,29 @@ TRUSTED = ['Coq 8.16.1 kernel (coqc; coqchk in the thorough tier)',
            'arguments from public attributes, fork server for fresh-process calls',
            'the aliasing facts of Model/Purity.v (observed through the tie)',
            'numpy: setflags(write=False) makes every in-place write raise; tobytes() snapshots']
-ASSUMPTIONS = ['histories use the generated operation vocabulary (see RULE); arrays have more than one element; OPD arrays '
+ASSUMPTIONS = ['in-place writes through plane.mask keep the mask binary and its bounding box (Plane derives _slice from the mask '
+               'at construction and has no mask setter: a caller who moves the support in place gets stale slices - noted, '
+               'not raised)',
+               'histories use the generated operation vocabulary (see RULE); arrays have more than one element; OPD arrays '
                'are float; out=/scratch buffers are complex and of the right shape',
+               'the immediate repeat of a call runs in a fork of the case process (it sees all hidden state built up so '
+               'far and does not perturb it); the fresh-state call runs in a fork of a pristine interpreter',
                'planes/wavefronts/spectra are rebuilt for the repeat and fresh-process checks from their public '
                'attributes (amplitude, opd, mask, pixelscale, focal_length, tilt list; wavefront fields; wave/value/units)',
                'result comparison tolerance 1e-9 relative (BLAS/FFT are deterministic here; the tolerance only absorbs '
                'the two tilt-fit orders of the confluence cases)']
-RULE = ('histories of 10..30 (quick) / 30..100 (thorough) steps over {array creation (frozen or not), caller pokes, '
+RULE = ('every case runs in its own process forked from a pristine interpreter (replays are self-contained); '
+        'histories of 10..30 (quick) / 30..100 (thorough) steps over {array creation (frozen or not; float64/float32/int64/'
+        'uint16/bool/complex), caller pokes and in-place refills, writes through plane.amplitude/.opd/.mask, Wavefront(tilt=), '
+        'multiply by Tilt / DispersiveTilt planes with re-use of the input wavefront, Plane.resample, zernike_basis/fit/remove/'
+        'compose/coordinates with default and supplied coordinates, helper.mesh, rectangle/circle/hexagon on repeated shapes, '
         'Plane/Pupil/Image construction, attribute updates, fit_tilt(inplace=T/F), copy, rescale, Wavefront, multiply, '
         'propagate_dft, propagate_fft(scratch), Wavefront.insert/field/intensity, dft2/idft2 with repeated shapes and '
         'out=, adc, collect_charge(+bayer), pixel, pixelate, charge_diffusion, jitter, smear, util.rescale, rebin, '
         'shot/read noise, dark current, power_spectrum with seeds, smear(angle=None), cosmic_rays, Spectrum '
-        'construction/arithmetic/sample/to/trim/resample}; plus directed cache-poisoning and plane-confluence cases; '
+        'construction/arithmetic/sample/to/trim/resample}; plus directed cases: cache poisoning, plane confluence, plane '
+        'updates (amplitude/opd/mask by setter and in place, fits, copies, resamples between multiplies at a repeated '
+        'wavelength), tilt re-use, memo-prone functions (2-9 calls with one argument varied, buffers refilled in place); '
         'non-trivial = the history contains an in-place call or a repeated dft2 shape or a frozen argument')
 
 TOL = 1e-9
